@@ -50,7 +50,35 @@ SEXP_STUBBED = ["sexp_user_exception", "sexp_type_exception", "sexp_xtype_except
 NUMERIC = ("ADD", "SUB", "MUL", "DIV", "QUOTIENT", "REMAINDER", "LT", "LE", "EQN")
 
 
+WODIR = os.path.join(core.BUILD, "C01", "writeone")
+
+
+def extract_writeone():
+    """Per-run copy of sexp.c in which, inside sexp_write_one only, self-calls and depth-resetting
+    re-entries are redirected to the contract stubs of harness/C01/writedepth.c.  Must-fire rules:
+    the function header, at least 5 self-calls, `bound` is never assigned in the body."""
+    import re
+    src = open(core.repo_file("sexp.c")).read()
+    m = re.search(r"^sexp sexp_write_one \(sexp ctx, sexp obj, sexp out, sexp_sint_t bound\) \{$", src, re.M)
+    if not m:
+        raise core.Undecided("must-fire: sexp_write_one header not found in sexp.c")
+    end = re.search(r"^\}$", src[m.end():], re.M)
+    body = src[m.end():m.end() + end.start()]
+    if re.search(r"\bbound\s*(=[^=]|\+\+|--|\+=|-=)|(\+\+|--)\s*bound\b|&\s*bound\b", body):
+        raise core.Undecided("must-fire: sexp_write_one assigns its depth parameter `bound`; the stub contract compares against the entry value")
+    b2, n1 = re.subn(r"\bsexp_write_one\s*\(", "VF_REC(", body)
+    b2, n2 = re.subn(r"\bsexp_write\s*\(", "VF_WRITE(", b2)
+    if n1 < 5:
+        raise core.Undecided("must-fire: only %d self-calls found in sexp_write_one" % n1)
+    for other in ("sexp_write_op", "sexp_write_simple_object", "sexp_apply"):
+        if re.search(r"\b%s\s*\(" % other, body):
+            raise core.Undecided("must-fire: sexp_write_one re-enters the writer through %s, which the redirection does not know" % other)
+    os.makedirs(WODIR, exist_ok=True)
+    core._write_if_changed(os.path.join(WODIR, "sexp_writeone.c"), src[:m.end()] + b2 + src[m.end() + end.start():])
+
+
 def prepare(tier):
+    extract_writeone()
     vmextract.write_ops(VMDIR, sorted(OPS), [f.replace("@BUILD@", core.BUILD) for f in FLAGS if not f.endswith("/C01/vm")])
 
 
@@ -93,6 +121,15 @@ META = {
                  "opcodes not listed under functions_under_contract: CALL/TAIL_CALL/APPLY1/RET/DONE (see C05), CALLCC/RESUMECC (C06), FCALL0-4/FCALLN (dispatch to foreign functions), port opcodes READ_CHAR/PEEK_CHAR/WRITE_CHAR/WRITE_STRING, SLOT*/MAKE/ISA/TYPEP (type table), PARAMETER_REF, GLOBAL_REF, CLOSURE_REF, LOCAL_REF/SET, STACK_REF, PUSH, JUMP*, MAKE_PROCEDURE, MAKE_EXCEPTION, FORCE, YIELD",
                  "foreign primitives of sexp.c / eval.c / port.c beyond those listed (planned: substring, subbytes, index->cursor, utf8->string)"],
 }
+
+# recursion of the writer bounded by its depth argument (decreases clause on the redirected self-calls)
+GROUPS.append({"name": "write_depth", "label": "proved", "harness": "harness/C01/writedepth.c", "entry": "h_write_depth",
+               "flags": ["-I@BUILD@/shim_small", "-I@BUILD@/C01/writeone", "-I" + core.REPO], "unwind": 6, "min_obligations": 4, "timeout": 300, "mem_gb": 4,
+               "functions": ["sexp.c:sexp_write_one (recursion measure; pair, vector, syntactic-closure and procedure branches)"],
+               "bound": "none for the nesting depth (modular: self-calls are replaced by their contract, depth argument symbolic); the container itself has an enumerated shape (2 pairs, 3 slots)",
+               "assumptions": ["self-calls and sexp_write re-entries inside sexp_write_one are redirected textually to contract stubs in a per-run copy of sexp.c; sexp_write_char / sexp_write_string are counting stubs",
+                               "branches of sexp_write_one for other tags (numbers, strings, symbols, types, opcodes, default) are not instantiated: their re-entries are on fields that are leaves by type invariant"],
+               "instances": [{"name": n, "defs": {"KIND": k}} for k, n in ((1, "pair"), (2, "vector"), (3, "synclo"), (4, "procedure"))]})
 
 # byte-level UTF-8 primitives of (chibi io): every fixnum offset is contained (no out-of-bounds read, or an exception)
 from groups import C12 as _c12
